@@ -3,7 +3,7 @@ from collections import Counter
 from datetime import timedelta
 
 from .. import hooks
-from ..gen import canon, mk_event, rand_grid, td_us
+from ..gen import big_n, canon, mk_event, rand_grid, td_us
 from . import _tx
 from ._tx import exc_viol, is_event_list, iv, snap, tmod, unmodified
 
@@ -270,7 +270,7 @@ def _events(rng, n, keys_pools, base, unit, contiguous):
 def gen_case(rng, ctx):
     base, unit = rand_grid(rng)
     fn = rng.choice(["merge", "merge", "chunk", "chunk", "sort_ts", "sort_dur", "limit", "filter", "filter"])
-    n = rng.randrange(0, 13)
+    n = big_n(rng, rng.randrange(0, 13))
     nk = rng.randrange(1, 4)
     keys = rng.sample(_KEYS, nk)
     shared = rng.choice(_POOLS)
